@@ -140,6 +140,41 @@ func VerifC02TwoSubs() { c02Run(c02Queries[:2], []int{1}, 1) }
 // thorough: one subscription, two data changes
 func VerifC02TwoWrites() { c02Run(c02Queries[2:], []int{0, 2}, 2) }
 
+// VerifC02Cached: a cached (expensive) field under a list element that leaves
+// the result, changes, and comes back as the same source object.
+func VerifC02Cached() {
+	it1, it2 := &xItem{ID: 1}, &xItem{ID: 2}
+	w := &kWorld{score: map[int64]int64{1: nondet.Int64("s1"), 2: nondet.Int64("s2")}}
+	w.items = []*xItem{it1, it2}
+	q := "{ items { w } }"
+	k := kStart(w, []*inEnvelope{kEnvelope(kmSubscribe, "a", q)}, 3)
+	// the steps are separated by quiescence (the scenario needs no race between
+	// the writer and the recomputations; each phase still explores every schedule
+	// of the recomputation, invalidation and release goroutines)
+	nondet.Quiesce()
+	// the element leaves the result and its data changes
+	w.items = []*xItem{it2}
+	w.score[1] = nondet.Int64("s1b")
+	kInvalidate(w)
+	nondet.Quiesce()
+	// the element comes back (same object: same cache key)
+	w.items = []*xItem{it1, it2}
+	kInvalidate(w)
+	k.mid = func() {
+		got, n := c02Fold(k.sock.out, "a")
+		nondet.Assert(n >= 1, "first-update-sent")
+		parsed, err := Parse(q, nil)
+		nondet.Assert(err == nil, "harness-query-parses")
+		schema := kSchema(&kWorld{items: w.items, score: w.score})
+		nondet.Assert(PrepareQuery(context.Background(), schema.Query, parsed.SelectionSet) == nil, "harness-query-valid")
+		want, err := NewExecutor(&xLIFOScheduler{}).Execute(context.Background(), schema.Query, nil, parsed)
+		nondet.Assert(err == nil, "harness-query-runs")
+		nondet.Assert(nondet.DeepEq(got, c03RefStrip(want)), "client-state-is-current-result")
+		nondet.Cover("converged")
+	}
+	k.kFinish()
+}
+
 func VerifC02Witness() {
 	w := &kWorld{version: 5}
 	k := kStart(w, []*inEnvelope{kEnvelope(kmSubscribe, "a", "{ live }")}, 3)
